@@ -1,4 +1,5 @@
 import OpusProofs.EncSkelToc
+import OpusProofs.EncSkelParse
 /-
   Property C02 — "Every encoded packet is valid and decodes in lock-step with the encoder".
 
@@ -64,6 +65,25 @@ theorem no_internal_error (s : St) (fuzz : Bool) (fsz out : Int) (o : NatOr)
 
 example : entryCheck (lowSt 48000 1002 1105 2) 960 100 = none := by decide +kernel
 
+/-- Clause "returns a well-formed Opus packet", repacketised / padded packets: whatever the
+    repacketiser contract `outRange` emits — the model of `opus_repacketizer_out_range_impl` as the
+    encoder calls it for multi-frame packets (:1742) and, through `opus_packet_pad`, for every CBR
+    packet (:2504, :1325) — i.e. codes 0/1/2/3, CBR or VBR, with or without padding: for ANY frame
+    contents of the recorded lengths, `header ++ frames ++ zero padding` is accepted by the packet
+    parser (the C06 model, proved sound and complete for RFC 6716), which reports exactly those frame
+    sizes and the same ToC configuration and consumes exactly `size` bytes. -/
+theorem repack_output_parses (cfg : Nat) (lens : List Nat) (maxlen : Nat) (pad : Bool) (r : OutRes) (frames : List Bytes)
+    (hfl : frames.map List.length = lens) (h4 : cfg % 4 = 0) (hcfg : cfg < 256)
+    (hall : ∀ l ∈ lens, l ≤ 1275) (hdur : FramingSpec.frameDur48 cfg * lens.length ≤ 5760)
+    (h : outRange cfg lens maxlen pad = .ok r) :
+    ∃ v, Framing.parseImpl false (pktBytes r.hdr frames r.size) = .ok v ∧ v.sizes = lens ∧
+      v.count = lens.length ∧ v.toc / 4 * 4 = cfg ∧ v.packetOffset = (pktBytes r.hdr frames r.size).length :=
+  outRange_parses cfg lens maxlen pad r frames hfl h4 hcfg hall hdur h
+
+/-- three 20 ms CELT frames of 3, 0 and 300 bytes padded to 400 bytes (code 3, VBR, padding). -/
+example : outRange 252 [3, 0, 300] 400 true = .ok { size := 400, hdr := [255, 195, 92, 3, 0] } ∧
+    FramingSpec.frameDur48 252 * 3 ≤ 5760 := by decide +kernel
+
 /- FULL STATEMENT (design §7.C02 `encode_wellformed`), not yet proved in full:
      under the contracts every success return `r` of the skeleton has `1 ≤ r ≤ out_data_bytes` and the
      emitted bytes (`pkt.hdr ++ frames ++ zero padding` for ANY frame contents of the lengths `pkt.lens`)
@@ -71,13 +91,14 @@ example : entryCheck (lowSt 48000 1002 1105 2) 960 100 = none := by decide +kern
    Proved below (`encode_wellformed_partial`): the return range on every path, and the parse for the
    code-0 structure `ToC ++ payload` that every VBR single-frame return and every DTX return has
    (`FramePost.vbr`, `FramePost.dtx1`: `hdr = [toc]`, `ret = payload + 1`).
-   Missing: (1) that the header bytes produced by the repacketiser contract functions `outRange` /
-   `padSpec` (CBR padding, multi-frame packets, padded ToC-only packets) followed by the frames and
-   zero padding parse back to `pkt.lens` — this is property C07's `out_roundtrip` for the contract
-   functions; (2) the duration equation `count · samples_per_frame(toc) = frame_size` along the decision
-   chain (needs `mode ≠ CELT → frame_size ≥ Fs/100` through `decide'`, then `genToc_roundtrip`).
-   Both are covered on the implementation by the tie (header bytes compared exactly) and by the search
-   (`opus_packet_parse` + `opus_packet_get_nb_samples` on every packet). -/
+   and `repack_output_parses` above: every header the repacketiser contract emits parses back to the
+   frame list.
+   Missing (bookkeeping between the two): (1) carrying `pkt.hdr = (outRange …).hdr` / `pkt.lens` through
+   the four return paths of `encodeNative` so that `repack_output_parses` applies to `pkt` itself;
+   (2) the duration equation `count · samples_per_frame(toc) = frame_size` along the decision chain
+   (needs `mode ≠ CELT → frame_size ≥ Fs/100` through `decide'`, then `genToc_roundtrip`).
+   Both are covered on the implementation by the tie (header bytes and frame lengths compared exactly)
+   and by the search (`opus_packet_parse` + `opus_packet_get_nb_samples` on every packet). -/
 theorem encode_wellformed_partial (s : St) (fuzz : Bool) (fsz out : Int) (o : NatOr)
     (he : entryCheck s fsz out = none) (hok : (encodeNative s fuzz fsz out o).ok = true) :
     (1 ≤ (encodeNative s fuzz fsz out o).ret ∧ (encodeNative s fuzz fsz out o).ret ≤ out) ∧
